@@ -37,6 +37,9 @@ namespace ebusd {
  * The base class for accessing an eBUS via a @a Transport instance.
  */
 class BaseDevice : public Device, public TransportListener {
+#ifdef EBUSD_VERIF
+  friend struct VerifAccess;  // verification harness access (no behaviour change)
+#endif
  protected:
   /**
    * Construct a new instance.
@@ -114,6 +117,9 @@ class BaseDevice : public Device, public TransportListener {
 
 
 class PlainDevice : public BaseDevice {
+#ifdef EBUSD_VERIF
+  friend struct VerifAccess;  // verification harness access (no behaviour change)
+#endif
  public:
   /**
    * Construct a new instance.
@@ -132,6 +138,9 @@ class PlainDevice : public BaseDevice {
 
 
 class EnhancedDevice : public BaseDevice, public EnhancedDeviceInterface {
+#ifdef EBUSD_VERIF
+  friend struct VerifAccess;  // verification harness access (no behaviour change)
+#endif
  public:
   /**
    * Construct a new instance.
